@@ -1,6 +1,6 @@
 (** C09 — negative indexes are the exact mirror of positive ones.  Statements only. *)
 From TucModel Require Import Base.Bytes Model.Bounds Model.CutBytes Model.Scan Model.Opt Model.CutStr
-     Model.FastLane Spec.Resolve Proofs.BoundsFacts Proofs.C09.
+     Model.FastLane Spec.Resolve Proofs.BoundsFacts Proofs.C09 Proofs.C01More Proofs.C09More.
 Local Open Scope Z_scope.
 
 (** replacing -k by n+1-k (1 <= k <= n) on either side of a bound never changes the range
@@ -46,6 +46,28 @@ Theorem C09_field_mode_fast :
     fast_out o d line fields l' = fast_out o d line fields l.
 Proof. exact C09_fast. Qed.
 
+(** a whole record of the general path (literal delimiter, field mode: trim, -p, -g, -s, -m,
+    -j, -r, format text, fallbacks): with another bounds list that rewrites any subset of
+    negative indexes against the number of fields of that record, the output is the same *)
+Theorem C09_whole_record :
+  forall (o : opt) (u' : ublist) (line0 : bytes),
+    o_regex o = None -> o_btype o = BFields -> o_json o = false ->
+    (forall line1, line1 <> [] ->
+       items_rewrite (Z.of_nat (length (snd (lit_stage o line1)))) (items (o_bounds o)) (items u')) ->
+    cut_str (with_bounds u' o) line0 = cut_str o line0.
+Proof. exact C09_record. Qed.
+
+(** --complement keeps the correspondence between the two lists *)
+Theorem C09_complement_list :
+  forall (n : nat) (l l' : list bof),
+    items_rewrite (Z.of_nat n) l l' ->
+    match complement_list l n, complement_list l' n with
+    | Some u, Some u' => items_rewrite (Z.of_nat n) (items u) (items u')
+    | None, None => True
+    | _, _ => False
+    end.
+Proof. exact complement_list_rw. Qed.
+
 (** -1 is always the last part and -n the first *)
 Theorem C09_minus_one_is_last :
   forall n : nat, (0 < n)%nat ->
@@ -65,3 +87,5 @@ Print Assumptions C09_field_mode_general.
 Print Assumptions C09_field_mode_fast.
 Print Assumptions C09_minus_one_is_last.
 Print Assumptions C09_minus_n_is_first.
+Print Assumptions C09_whole_record.
+Print Assumptions C09_complement_list.
